@@ -242,9 +242,32 @@ def fill(claim, na):
           'and boundary conditions are not decided.',
           'NLegLadder excluded (topological neighbours by documentation); derived lattices '
           '(MultiSpecies, Irregular, Helical) have no literal tables', 'C19')
-    for pid in ['C11', 'C13']:
-        na(pid, 'static rule planned in DESIGN.md but not built yet (work in progress); not '
-           'claimed until its check exists')
+    claim('C11', 'exhaustiveness of flag handling over the methods of MPO (closure over self-calls) '
+          '+ table agreement of identity indices and leg labels + result-flow of truncation errors',
+          PARTIAL + 'Every MPO method that uses the W tensors mentions explicit_plus_hc, builds an '
+          'MPOEnvironment / MPOTransferMatrix (which handle it), delegates to such a method, or is '
+          'in the table of structure-only methods (one reason each; to_TermList and prefactor are '
+          'documented debugging aids on the stored terms); extract_segment and __add__ forward / '
+          'compare the flag, dagger() and make_U_I/II treat it explicitly; identity indices from '
+          'get_IdL slice wL legs and those from get_IdR wR legs; truncation errors of apply / '
+          'apply_zipup / compress reach the returned value; apply() dispatches every documented '
+          'compression method. Operator values and the scaling of propagator errors with t are '
+          'not decided.', 'name-based resolution of self-calls inside MPO', 'C11')
+    claim('C13', 'protocol agreement per concrete Sweep subclass (MRO-resolved hooks, returned '
+          'dict keys vs hook parameters) + symbolic list lengths (polynomials in L, n) + '
+          'must-follow of the explicit_plus_hc wrap after every effective-Hamiltonian construction',
+          PARTIAL + 'Weak, protocol only: for every concrete engine (DMRG x3, TDVP x4, VUMPS x2, '
+          'variational compression x4) the dict returned by the resolved update_local has a key '
+          'for every named parameter of the resolved post_update_local and every '
+          'update_data[...] read of update_env; the zipped lists of every get_sweep_schedule have '
+          'equal symbolic length; every construction of an effective Hamiltonian (OneSiteH, '
+          'TwoSiteH, ZeroSiteH, self.EffectiveH, ZeroSiteH.from_LP_RP) in the algorithms is '
+          'followed in the same function by the wrap Sum(H, H.adjoint()) under explicit_plus_hc '
+          'or an assertion on the flag; environment index pairing (del_LP(i_R)/del_RP(i_L), '
+          'update_LP from U / update_RP from VH), hook order in Sweep.sweep, orthogonal projection '
+          'outermost, mixer weights. Energies, convergence and canonical form of the result are '
+          'numerical and not decided.', 'hook dictionaries assembled through containers other '
+          'than dict literals / update_data[...] stores are treated as opaque (not flagged)', 'C13')
     na('C08', 'every clause quantifies over numerical values (expectation values, overlaps, Born '
        'weights); the only structural part (Jordan-Wigner routing of measurement entry points) is '
        'decided under C12')
